@@ -600,7 +600,23 @@ func (p *Packer) validSymlink(root, path, target string) (bool, error) {
 		rootPrefix += string(filepath.Separator)
 	}
 	if absTarget == absRoot || strings.HasPrefix(absTarget, rootPrefix) {
-		return true, nil
+		if filepath.IsAbs(target) {
+			return true, nil
+		}
+
+		// A relative target must also stay below root all the way. One that
+		// climbs above root and comes back in through root's own name
+		// (../../<root>/file) points into root only for as long as root is
+		// called that, which is no longer so once the tree has been packed
+		// and unpacked somewhere else. So look at where the target leads
+		// from root, without root's name in it.
+		relDir, err := filepath.Rel(absRoot, filepath.Dir(absPath))
+		if err == nil {
+			fromRoot := filepath.Join(relDir, target)
+			if fromRoot != ".." && !strings.HasPrefix(fromRoot, ".."+string(filepath.Separator)) {
+				return true, nil
+			}
+		}
 	}
 
 	// The link target is outside of root. Check if it is allowed.
